@@ -327,15 +327,22 @@ def u8(ctx, rid):
     prog = ctx.prog
     n = 0
     for f in prog.fns.values():
-        if not f.id.endswith('Blob::<K>::filter_entries::{closure#0}'):
+        if f.file != 'src/blob/core.rs' or not f.is_coroutine:
             continue
-        # the switch that decides whether an entry is returned: the nearest non-await switch dominating an Ok(Some(entry)) return
+        par = prog.fns.get(f.parent) if f.parent in prog.fns else None
+        if par is None or not any('record::record::Meta' in l['s'] and l['s'].startswith('&') for l in par.locals[1:par.argc + 1]):
+            continue
+        # the switch that decides whether an entry is returned: a non-await switch one of whose edges leads to the
+        # `Some(entry)` / `Found(entry)` result and another does not
         rets = []
         for i, b in enumerate(f.blocks):
             if b['c'] or i not in f.reachable():
                 continue
             for st in b['s']:
-                if st['k'] == 'a' and st['r']['k'] == 'agg' and st['r'].get('variant') == 'Some' and 'Entry' in (core.place_type_str(f, st['d']) or ''):
+                if st['k'] != 'a' or st['r']['k'] != 'agg':
+                    continue
+                ty = core.place_type_str(f, st['d']) or ''
+                if (st['r'].get('variant') == 'Some' and ty.startswith('std::option::Option<blob::entry::Entry')) or (st['r'].get('variant') == 'Found' and 'Entry' in ty):
                     rets.append(i)
         for rb in rets:
             can = set(i for i in f.reachable() if rb in f.reach_from([i]))
@@ -375,7 +382,7 @@ def u8(ctx, rid):
                 else:
                     ctx.ok(rid, key, f.where(i), 'decided by PartialEq on Meta')
     if n < 1:
-        raise core.AnchorLost('metadata match decision in filter_entries: %d' % n)
+        raise core.AnchorLost('metadata match decision next to Entry::load_meta: %d' % n)
 
 
 def u9(ctx, rid):
@@ -383,6 +390,79 @@ def u9(ctx, rid):
     grid (C04.T12 instances)"""
     import props.c04 as c04
     c04.t12(ctx, rid)
+
+
+def u10(ctx, rid):
+    """"then append recency": a header whose timestamp equals existing ones is inserted behind all of them.  The position handed
+    to Vec::insert in the in-memory index is an upper bound of the equal-timestamp range on every path: the insertion is only
+    reached through the exit of a skip loop `while pos < len && v[pos].timestamp() <= new.timestamp()` (the false edge of the
+    `<=` on two timestamps or of `pos < len`), or right after a partition_point whose predicate is that `<=`."""
+    prog = ctx.prog
+    n = 0
+    for f in prog.fns.values():
+        if not (f.id.endswith('IndexTrait<K>>::push') and 'IndexStruct' in f.id):
+            continue
+        ins = [c for c in f.calls if c.name == 'insert' and c.path.startswith('std::vec::Vec') and c.bb in f.reachable()]
+        if not ins:
+            continue
+        exits = []
+        for i, b in enumerate(f.blocks):
+            if b['c'] or i not in f.reachable():
+                continue
+            for st in b['s']:
+                if st['k'] != 'a' or st['r']['k'] != 'bin':
+                    continue
+                r = st['r']
+                kind = None
+                if r['op'] == 'Le':
+                    oa = [o for o in core.origins(f, r['a']) if o.kind == 'call']
+                    ob = [o for o in core.origins(f, r['b']) if o.kind == 'call']
+                    if oa and ob and all(o.data.name == 'timestamp' for o in oa + ob):
+                        kind = 'le'
+                elif r['op'] == 'Lt':
+                    ob = [o for o in core.origins(f, r['b']) if o.kind == 'call']
+                    if ob and all(o.data.name == 'len' for o in ob):
+                        kind = 'lt'
+                if not kind:
+                    continue
+                carry = core.flows_forward(f, st['d'][0])
+                for j in f.reachable():
+                    t = f.blocks[j]['t']
+                    if t['k'] == 'switch' and op_local(t['o']) in carry:
+                        exits += [tg for v, tg in t['vals'] if v == 0]
+        # partition_point / take_while(..).count() / position with the predicate `x.timestamp() <= new.timestamp()`
+        for c in f.calls:
+            if c.name in ('partition_point', 'take_while', 'skip_while', 'position', 'rposition') and c.bb in f.reachable() and c.t['t'] is not None:
+                for a in c.args:
+                    l = op_local(a)
+                    if l is not None and f.locals[l].get('h') == 'closure':
+                        g = prog.fns.get(f.locals[l]['a'][0])
+                        if g is None:
+                            continue
+                        for b in g.blocks:
+                            for st in b['s']:
+                                if st['k'] == 'a' and st['r']['k'] == 'bin' and st['r']['op'] in ('Le', 'Ge'):
+                                    oa = [o for o in core.origins(g, st['r']['a']) if o.kind == 'call']
+                                    ob = [o for o in core.origins(g, st['r']['b']) if o.kind == 'call']
+                                    if not (oa and ob and all(o.data.name == 'timestamp' for o in oa + ob)):
+                                        continue
+                                    # element (closure parameter) <= new (captured)   or   new >= element
+                                    elem = oa if st['r']['op'] == 'Le' else ob
+                                    from_param = all(any(x.kind == 'arg' for x in core.origins(g, o.data.args[0])) for o in elem)
+                                    if from_param:
+                                        exits.append(c.t['t'])
+        for c in ins:
+            n += 1
+            key = 'equal-timestamps-append-behind|%s' % f.id
+            if not exits:
+                ctx.bad(rid, key, c.where(), 'no `<=`-on-timestamps skip precedes the insertion into the per-key version list')
+            elif c.bb in f.reach_from([0], avoid_enter=exits):
+                ctx.bad(rid, key, c.where(), 'the insertion position can reach Vec::insert without having been moved behind the records with an equal timestamp (no `v[pos].timestamp() <= new.timestamp()` skip on that path): a record written later with the same timestamp ranks before the earlier one',
+                        witness=['bb%d %s' % (b, f.where(b)) for b in (f.path([0], [c.bb], avoid_enter=exits) or [])][-8:])
+            else:
+                ctx.ok(rid, key, c.where(), 'every path to the insertion leaves the `<=` skip loop (or a `<=` partition_point)')
+    if n < 1:
+        raise core.AnchorLost('Vec::insert in IndexStruct::push: %d' % n)
 
 
 RULES = [
@@ -394,5 +474,6 @@ RULES = [
     Rule('C02.U7', 'the Deleted answer of the per-blob meta lookup is taken from the marker-terminated version list', u7, 1),
     Rule('C02.U8', 'metadata equality in the meta lookup is decided on decoded maps, never on serialized bytes', u8, 1),
     Rule('C02.U9', 'on-disk version lists: leaf cursors move by whole record headers (C04.T12 instances)', u9, 4),
+    Rule('C02.U10', 'equal timestamps: the in-memory insertion position is behind every record with the same timestamp (append recency)', u10, 1),
     Rule('C02.U6', 'the point lookup consults every candidate closed blob before it returns Ok', u6, 1),
 ]
